@@ -138,6 +138,8 @@ type CoreCfg struct {
 	TLSMode      int // 0 plain listener, 1 server-auth TLS, 2 client certificate required and verified
 	Port         int
 	Addr         string
+	Malformed    bool // Addr is malformed: Run must fail
+	BusyPort     bool // the port is already bound when Run starts
 
 	Routes     []RouteSpec
 	HasDefault bool
@@ -340,6 +342,12 @@ func (c *Core) Setup(s *Sim) {
 	if cfg.Prop == "C14" && !cfg.Lean {
 		c.beheraCtor(s)
 	}
+	if cfg.BusyPort {
+		if _, err := simrt.Listen("tcp", ":389"); err != nil {
+			panic("sim: cannot pre-bind the port: " + err.Error())
+		}
+		s.Fault("F14-port-already-bound")
+	}
 	if cfg.StopMode == 2 {
 		// Stop before Run
 		c.invokeStop(s)
@@ -466,7 +474,7 @@ func (c *Core) Actions(s *Sim, acts []Action) []Action {
 		if cl.ep == nil {
 			continue
 		}
-		if cl.paused {
+		if cl.paused && !(stopped && cfg.PassiveEnd) {
 			w := s.WHarness
 			if !c.drain {
 				w = 1
@@ -652,7 +660,7 @@ func (c *Core) faultActions(s *Sim, acts []Action) []Action {
 	if cfg.FaultKinds["pause"] {
 		for _, cl := range cfg.Clients {
 			cl := cl
-			if cl.ep != nil && cl.ended == "" && !cl.paused {
+			if cl.ep != nil && cl.ended == "" && !cl.paused && cl.Flavour == 0 {
 				acts = append(acts, Action{Class: clsFault, Key: "fault-pause " + cl.name(), Weight: s.WFault, Do: func() {
 					s.Logf("FAULT %s stops reading", cl.name())
 					s.Fault("F5-client-stops-reading")
